@@ -25,6 +25,61 @@ CLAIMED = {
             "arguments; the same specs are bound to the host classes (C19), so conformance of both sides is agreement between them.",
             "Trusted: TLC, g++, the mock Arduino core (/verif/mock), the projection of pin events to waveforms. Known deviations are matched "
             "exactly by named spec predicates (known_findings.json). Bounded to the grids and generated histories.", "DESIGN.md §5 C04"),
+    "C01": ("model_checking",
+            "TLA+ Lang spec (Python semantics of the DSL) executed by TLC as the reference; TLC-enumerated program families + seeded random programs run as firmware (g++ + mock Arduino core) and under CPython; both recorded traces validated by TLC (LangTrace)",
+            "TLC enumerates the program families (every binary / comparison operator x operand pair, control skeletons to a node bound, "
+            "assignment / list / builtin / f-string forms), evaluates every candidate in the Lang specification (well-definedness, trigger "
+            "tags) and then judges the event traces recorded from the real firmware and from CPython against the spec's trace, event by "
+            "event. CPython disagreeing with the spec is a spec gap, never a violation; the firmware disagreeing is a violation unless the "
+            "script was rejected. Known findings are canonical probes whose deviation must equal the recorded signature exactly.",
+            "Trusted: TLC, g++, the mock Arduino core, CPython as reference. Bounded to the enumerated families, packing sizes and seeds; "
+            "AVR int width is handled by discarding programs whose ints leave the 16-bit range.", "DESIGN.md §5 C01"),
+    "C02": ("model_checking",
+            "Lang spec with a history variable of runtime types per name; TLC-enumerated TypeFlows (type sequences x 13 sites) and expression "
+            "results stored in variables; firmware + CPython traces and declared C++ types validated by TLC (LangTrace: values and Covers)",
+            "For every TypeFlow and expression case in the clean stratum TLC checks that the firmware prints Python's values and that the "
+            "declared C++ type of every variable, parameter and function result covers the join of the runtime types the spec saw the name "
+            "hold. Flows in which a name changes type are the known first-assignment-wins finding, probed with exact signatures.",
+            "Trusted: as C01, plus the declaration scanner over the emitter's regular output. Bounded to type sequences of length <= 2, "
+            "13 site kinds, the operator grid.", "DESIGN.md §5 C02"),
+    "C03": ("model_checking",
+            "Lang spec + device specs, neither of which evaluates anything early; TLC evaluates FoldSites x Routings programs and TLC-generated "
+            "device call histories are rendered with 8 Python-equivalent routings per argument; firmware traces validated by TLC",
+            "Every fold site (sleep, range, arithmetic, analog_write, list index, len of str / list; every numeric argument of Led / RGBLed / "
+            "Servo / DCMotor calls) is exercised with the value arriving as a literal, a constant variable, a variable re-assigned after the "
+            "site, in taken / untaken branches, in loops that run 0 / 2 times, in called / uncalled functions, or from a sensor; TLC judges the "
+            "firmware trace against the spec for the value Python has at that point, so a stale or mis-folded constant is a violation.",
+            "Trusted: as C01 and C04. Bounded to the listed sites, routings and two values per site; sampled device histories.", "DESIGN.md §5 C03"),
+    "C14": ("model_checking",
+            "TLA+ specs Libs and Sketch model-checked by TLC; TLC enumerates device multisets exhaustively (LibsGen); each is rendered as a script and run "
+            "through the real parse / emit / _collect_required_libraries; lib_deps, #include lines, library objects and the item sequence of the "
+            "emitted text validated by TLC (LibsTrace, SketchTrace); thorough also compiles and links against the mock library headers",
+            "TLC checks every clause of the property (requested <=> included <=> instantiated <=> needed, no duplicates, nothing needless, Wire.h "
+            "with the I2C group) on the specification, proves the verdict function equivalent to the declarative clauses over a bounded universe "
+            "of observations, and validates the observations of the real code for every generated multiset (servos 0..2 over both placements x "
+            "parallel LCDs 0..2 x I2C LCDs 0..2 x subsets of the other kinds x 3 script shapes), naming the failing clause.",
+            "Trusted: TLC, the light text scanner (selftest trap text), g++ and /verif/mock for the thorough link leg. Bounded to <= 2 devices per "
+            "library kind. Devices declared inside compound statements are a probe stratum matched exactly by Libs!KnownNestedDropped.", "DESIGN.md §5 C14"),
+    "C15": ("model_checking",
+            "TLA+ specs Button / Pot / Ultrasonic model-checked by TLC; TLC-generated sampled signals x call patterns, ADC sequences and echo "
+            "schedules executed in firmware (mock core with scripted digitalRead/analogRead/pulseIn/millis) and on the host Button class; "
+            "recorded traces validated by TLC",
+            "TLC exhaustively checks once-per-pass sampling, click = rising edge of the sampled signal, no click at start-up, stable reads within a "
+            "pass, agreement with the host model; one fresh analogRead per read(); trigger spacing >= 60 ms once millis() > 0, <= 3 attempts, the "
+            "result and fallback law; and validates every event of traces recorded from real firmware and the real host Button against the same "
+            "step relations, naming the failing clause.",
+            "Trusted: TLC, g++, the mock core's virtual clock, the projection of raw events by serial markers. 'clock running' = millis() > 0 at the "
+            "later trigger; distances compared within print precision. Three known deviations matched exactly (known_findings.json).", "DESIGN.md §5 C15"),
+    "C18": ("model_checking",
+            "TLA+ spec LCDAnim model-checked by TLC incl. a fairness-based liveness check on a reduced model; TLC-generated behaviours (parameter grid x "
+            "tick-time patterns, multi-animation walks, start-placement probes) replayed into the real host LCD class and into firmware; recorded "
+            "traces validated event by event by TLC (LCDAnimTrace, impl = host | fw)",
+            "TLC checks FrameWidth, FrameInsideRow, NonLoopingStops (<= 2(len+cols)+4 steps), LoopingNeverStops, RateLimit, StartNeverBlocks and "
+            "TickOncePerPass in every reachable state of every tick-time sequence over the grids (4 styles x cols 1..5 x text length 0..cols+2 x "
+            "loop x speeds), <>~active under weak fairness, and validates traces of the real LCD.tick and of real firmware (millis reads, LCD cell "
+            "writes, delay calls, pass markers) against the same specification.",
+            "Trusted: TLC, g++, the mock core, the projection in which a firmware tick is identified by its millis() read. Bounded to the grids and "
+            "generated schedules. Two known deviations matched exactly.", "DESIGN.md §5 C18"),
 }
 NOT_YET = {}
 
